@@ -178,6 +178,12 @@ fn main() {
                     "graph",
                 ),
                 (
+                    "replication-no-dedup".into(),
+                    Box::new(c11::scenario(known.open_for("C11"), 1)),
+                    Tiered { quick: lim(3, 3, false, 30), thorough: lim(4, 3, false, 400) },
+                    "tree",
+                ),
+                (
                     "end-to-end".into(),
                     Box::new(c11e2e::scenario()),
                     Tiered { quick: lim(3, 2, false, 40), thorough: lim(4, 3, false, 500) },
@@ -202,6 +208,11 @@ fn main() {
                     Box::new(c12::scenario(known.open_for("C12"))),
                     Tiered { quick: lim(5, 3, true, 50), thorough: lim(7, 4, true, 600) },
                     "graph",
+                ), (
+                    "promotion-no-dedup".into(),
+                    Box::new(c12::scenario(known.open_for("C12"))),
+                    Tiered { quick: lim(3, 3, false, 30), thorough: lim(4, 3, false, 400) },
+                    "tree",
                 )],
                 &[
                     "component level: leader branch bodies as in C11; the follower node's core comes from the real persistence::restore with the configuration Config::new(Some(Args{--follower ...})) yields when only WORTERBUCH_DATA_DIR is in the environment (what the orchestrator passes); its flush points are those of run_in_follower_mode (after the initial sync, on persistence ticks, in the shutdown sequence); promotion = real restore with the --leader configuration on the same directory",
@@ -362,6 +373,12 @@ fn main() {
                     Tiered { quick: lim(5, 2, true, 40), thorough: lim(6, 4, true, 500) },
                     "graph",
                 ),
+                (
+                    "core-alphabet-no-dedup".into(),
+                    Box::new(props_session::c13_nodedup(&known)),
+                    Tiered { quick: lim(3, 2, false, 30), thorough: lim(4, 3, false, 400) },
+                    "tree",
+                ),
             ],
             SESSION_ASSUMPTIONS,
             "every sequence of request lines (all request kinds of protocol v0 and v1 with valid and invalid arguments) of two concurrent sessions through the real protocol handler and the real core task, up to the completed depth, de-duplicated by the core snapshot plus session state; distinct_nontrivial counts distinct request kinds exercised per scenario",
@@ -500,6 +517,11 @@ fn main() {
                 Box::new(props_core::c08(&known)),
                 Tiered { quick: lim(4, 2, true, 40), thorough: lim(5, 3, true, 600) },
                 "graph",
+            ), (
+                "sys-no-dedup".into(),
+                Box::new(props_core::c08(&known)),
+                Tiered { quick: lim(2, 2, false, 30), thorough: lim(3, 2, false, 400) },
+                "tree",
             )],
             CORE_ASSUMPTIONS,
             "every history of requests of an ordinary client (set, cset, delete, pdelete, publish, spub, lock, grave goods / last will + disconnect) over every key/pattern shape that can reach $SYS, up to the completed depth, with sentinels planted and watched by the server's own client; distinct_nontrivial counts distinct (request kind, answer class) pairs",
